@@ -472,7 +472,42 @@ Proof.
   destruct (file_tail_complete fuel a3 fr' p3 _ e rest Hr3 Ht3 Hreg Hfu3 (more_top h e fr)) as (n & E4).
   rewrite E4. cbn [ebind]. rewrite exec_lift. unfold fr'. rewrite parent_L.
   split; [reflexivity|]. split; [|exact Ht1].
-  eapply done_ready; eauto. left. auto.
+  apply (done_ready h e (AIn h e) e fr stop); auto.
+  - left. auto.
+  - split; [exact Hfe | cbn [ainv]; lia].
+Qed.
+
+
+(* ------------------------------------------------------------------ the frame loop *)
+Lemma frames_complete fuel x : forall a fr p o stop cs rest, ready a fr p o stop -> tiles' o stop cs ->
+  take_frames lok allow inp (has (x_flags x) F_ALPH) cs = Some rest -> fuel_ok fuel o stop ->
+  more inp fr stop = false ->
+  exists a' p' o', exec' (frames lossless allow fuel x (L a fr p)) p = (Ok (L a' fr p'), p')
+    /\ ready a' fr p' o' stop /\ tiles' o' stop rest.
+Proof.
+  induction fuel as [|fuel IH]; intros a fr p o stop cs rest Hr Ht Htk Hfu Hm; [unfold fuel_ok in Hfu; lia|].
+  pose proof Hr as [Hl Hb Hp Ho Hle Hf Hs]. cbn [frames].
+  destruct cs as [|c cs].
+  - injection Htk as <-. assert (Eso : stop = o) by (inversion Ht; congruence). subst stop.
+    destruct (peek_header_go_none a fr p Hl Hp Hb) as (n & E); [rewrite Ho; exact Hm|]. rewrite Ho in E.
+    rewrite exec_bind, E. cbn [ebind]. rewrite exec_ret. exists (AIdle n), o, o. split; [reflexivity|].
+    split; [|exact Ht]. constructor; auto; try exact I; try reflexivity; try lia.
+    + split; [exact Hf | exact I].
+    + apply settled_padreq. exact I.
+  - destruct (tiles_cfacts fr o stop c cs Ht Hf Hs) as (Ec & Hh & Hbo & Hes & Ht1).
+    rewrite exec_bind, (peek_header_go_some a fr p Hl Hp Hb); rewrite ?Ho; auto. cbn [ebind].
+    cbn [take_frames] in Htk. rewrite <- wname_chunk_at, <- Ec.
+    change (teq (w_name c) ANMF) with (geq (w_name c) gANMF).
+    destruct (geq (w_name c) gANMF) eqn:En.
+    + destruct (frame_ok lok allow inp (has (x_flags x) F_ALPH) c) eqn:Efo; [|discriminate].
+      apply geq_true in En.
+      pose proof (ready_peek fr o stop c cs Ht Hf Hs) as Hrp.
+      destruct (one_frame_complete fuel x _ fr _ o stop c cs Hrp Ht En Efo Hfu) as (E1 & Hr1 & _).
+      rewrite exec_bind, E1. cbn [ebind].
+      eapply IH; [exact Hr1 | exact Ht1 | exact Htk | | exact Hm].
+      eapply fuel_step; [exact Hfu | | apply (tiles_le _ _ _ _ Ht1) | lia]. lia.
+    + injection Htk as <-. rewrite exec_ret. exists (APeek (hdr_at' o)), (o + 8), o.
+      split; [reflexivity|]. split; [eapply ready_peek; eauto | exact Ht].
 Qed.
 
 End C.
